@@ -44,7 +44,8 @@ def body(cfg, start, end, pb):
     v = None if cfg["v"] is None else nodes[cfg["v"]]
     s, e = cfg["window"]
     res = paths.time_respecting_paths(G, u, v, s, e)
-    present = G._inc(u, ids[0] if s is None else s)
+    # "u present at start": with start omitted time_respecting_paths only requires u to be a node of the graph
+    present = True if s is None else G._inc(u, s)
     if not present:
         reach("root_absent")
         return res == [] or len(res) == 0
@@ -143,26 +144,28 @@ def all_body(cfg, start, end, pb):
     return True
 
 
-WINDOWS = {(0, 1, 2): [(None, None), (0, 2), (0, 1), (1, 2), (0, 0), (1, 1), (2, 2)],
+WINDOWS = {(0, 1): [(None, None), (0, 1), (0, 0), (1, 1)], (0, 1, 2): [(None, None), (0, 2), (0, 1), (1, 2), (0, 0), (1, 1), (2, 2)],
            (0, 2, 3): [(None, None), (0, 2), (2, 3), (0, 1), (1, 3)],
            (1, 3, 4, 6): [(None, None), (1, 4), (3, 6), (2, 5)]}
 for directed in (False, True):
     for strnodes in (False, True):
-        for ids, N in (((0, 1, 2), 3), ((0, 2, 3), 3), ((1, 3, 4, 6), 3), ((0, 1, 2), 4)):
+        for ids, N in (((0, 1), 3), ((0, 1, 2), 3), ((0, 2, 3), 3), ((1, 3, 4, 6), 3), ((0, 1, 2), 4)):
             for v in (None, 1, 0):
                 for w in WINDOWS[ids]:
-                    for part in ((0, 1, 2, 3) if (directed or N == 4 or len(ids) == 4) else (None,)):
+                    for part in ((0, 1, 2, 3) if ((directed or N == 4 or len(ids) == 4) and len(ids) > 2) else (None,)):
                         quick = (ids == (0, 1, 2) and N == 3 and not strnodes and not directed and w in ((None, None), (0, 1), (1, 2), (1, 1))
                                  and v in (None, 1)) or (ids == (0, 2, 3) and strnodes and not directed and v is None and w == (None, None)) \
-                            or (directed and ids == (0, 1, 2) and N == 3 and not strnodes and v is None and w == (None, None))
+                            or (directed and ids == (0, 1) and not strnodes and v in (None, 1) and w in ((None, None), (1, 1))) \
+                            or (directed and ids == (0, 1, 2) and N == 3 and not strnodes and v is None and w == (None, None) and part == 0)
                         REG.add("all_%s_%s_ids%s_N%d_v%s_w%s%s%s" % ("d" if directed else "u", "str" if strnodes else "int",
                                                                      "".join(map(str, ids)), N, "N" if v is None else v,
                                                                      "N" if w[0] is None else w[0], "N" if w[1] is None else w[1],
                                                                      "" if part is None else "_p%d" % part),
                                 T_paths, body, cfg=dict(directed=directed, strnodes=strnodes, ids=list(ids), N=N, u=0, v=v, window=w, part=part),
                                 tier="quick" if quick else "thorough", timeout=900 if quick else 3000,
-                                tags=["root_absent", "three_hops"] if (part in (None, 0) and (w[1] is None or w[1] - (w[0] or 0) >= 2))
-                                else [], twins=1,
+                                tags=(["root_absent"] if (w[0] is not None and part in (None, 0)) else []) +
+                                     (["three_hops"] if (part is None and v is None and len(ids) >= 3 and (w[1] is None or w[1] - (w[0] or 0) >= 2)) else []),
+                                twins=1,
                                 bounds="%s over %d %s nodes, snapshot ids %s, lazily decided presence bit per (pair, id)%s, source = first "
                                        "node, target %s, window %s" % ("directed" if directed else "undirected", N,
                                                                        "string" if strnodes else "int", list(ids),
@@ -171,17 +174,92 @@ for directed in (False, True):
                                 what="with sample=1 and u present at start, time_respecting_paths returns exactly the set of hop sequences "
                                      "found by brute-force enumeration of the C12 conditions (keys (first,last), no duplicates); empty "
                                      "when u has no interaction at start")
-    for smp in (0.5, 0.3):
-        REG.add("sample_%s_%s" % ("d" if directed else "u", str(smp).replace(".", "")), T_paths, sample_body,
-                cfg=dict(directed=directed, strnodes=False, ids=[0, 1], N=3, sample=smp), tier="quick" if smp == 0.5 and not directed else "thorough",
-                timeout=900, tags=["strict_subset"], twins=1,
-                bounds="3 nodes, snapshot ids [0,1], sample=%s with a nondeterministic choice of the sampled (source,target) pairs" % smp,
+    for smp, ids_ in ((0.5, [0]), (0.5, [0, 1]), (0.3, [0, 1])):
+        REG.add("sample_%s_%s_ids%s" % ("d" if directed else "u", str(smp).replace(".", ""), "".join(map(str, ids_))), T_paths, sample_body,
+                cfg=dict(directed=directed, strnodes=False, ids=ids_, N=3, sample=smp), tier="quick" if ids_ == [0] else "thorough",
+                timeout=900 if ids_ == [0] else 3000, tags=["strict_subset"], twins=1,
+                bounds="3 nodes, snapshot ids %s, sample=%s with a nondeterministic choice of the sampled (source,target) pairs" % (ids_, smp),
                 what="with sample<1 the result is a subset of the full result, for every possible sample")
     for m in (0, 1):
         for w in ((None, None), (0, 1), (1, 2)):
-            REG.add("allpairs_%s_m%d_w%s%s" % ("d" if directed else "u", m, "N" if w[0] is None else w[0], "N" if w[1] is None else w[1]),
-                    T_paths, all_body, cfg=dict(directed=directed, strnodes=False, ids=[0, 1, 2], N=3, min_t=m, window=w),
-                    tier="quick" if (m == 0 and w == (None, None) and not directed) else "thorough", timeout=1800, tags=["several_keys"], twins=1,
-                    bounds="3 nodes, snapshot ids [0,1,2], min_t=%d, window %s" % (m, w),
+          for ids in ([0, 1], [0, 1, 2]):
+            if ids == [0, 1] and w == (1, 2):
+                continue
+            REG.add("allpairs_%s_ids%s_m%d_w%s%s" % ("d" if directed else "u", "".join(map(str, ids)), m, "N" if w[0] is None else w[0],
+                                                    "N" if w[1] is None else w[1]),
+                    T_paths, all_body, cfg=dict(directed=directed, strnodes=False, ids=ids, N=3, min_t=m, window=w),
+                    tier="quick" if (m == 0 and w == (None, None) and ids == [0, 1] and not directed) else "thorough", timeout=1800,
+                    tags=["several_keys"], twins=1,
+                    bounds="3 nodes, snapshot ids %s, min_t=%d, window %s" % (ids, m, w),
                     what="all_time_respecting_paths maps (u,w), u over the nodes present at min_t, to exactly "
                          "time_respecting_paths(G,u,None,start,end)[(u,w)]")
+
+
+# ---- eager variant on the REAL classes: soundness (C12) and completeness (C13) together ---------------------------------
+from .pathmodel import eager, eager_build  # noqa: E402
+
+
+def T_eager(pb: B48) -> bool:
+    pass
+
+
+def eager_body(cfg, pb):
+    names, dec = eager(cfg["N"], cfg["ids"], cfg["directed"], pb, cfg["strnodes"])
+    if sum(1 for x in dec.values() if x) >= 3:
+        reach("three_interactions")
+    return models.untraced(eager_run, cfg, names, dec)
+
+
+def eager_run(cfg, names, dec):
+    g, O = eager_build(names, cfg["ids"], cfg["directed"], dec)
+    if not O.ids:
+        return True
+    wins = [(None, None)] + [(a, b) for a in O.ids for b in O.ids if a <= b]
+    for u in names:
+        for v in [None] + names:
+            for (s, e) in wins:
+                res = paths.time_respecting_paths(g, u, v, s, e)
+                got = flat(res)
+                for k, p in got:
+                    if not genuine(O, p, u, v, s, e) or k != (p[0][0], p[-1][1]):
+                        return False
+                gs = set(p for k, p in got)
+                if len(gs) != len(got):
+                    return False
+                present = O._inc(u, s) if s is not None else (u in g._node)
+                if not present:
+                    if got:
+                        return False
+                    continue
+                if gs != set(all_paths(O, u, v, s, e)):
+                    return False
+        if cfg.get("allpairs"):
+            pass
+    for m in O.ids:
+        res = paths.all_time_respecting_paths(g, None, None, min_t=m)
+        exp = {}
+        for u in names:
+            if not O._inc(u, m):
+                continue
+            r = paths.time_respecting_paths(g, u, None, None, None)
+            if isinstance(r, list):
+                continue
+            for k, pl in r.items():
+                exp[(u, k[1])] = pl
+        if set(res.keys()) != set(exp.keys()) or any(list(res[k]) != list(exp[k]) for k in exp):
+            return False
+    return True
+
+
+for directed, ids in ((False, [0, 1, 2]), (True, [0, 1])):
+    for strnodes in (False, True):
+        REG.add("eager_%s_%s" % ("d" if directed else "u", "str" if strnodes else "int"), T_eager, eager_body,
+                cfg=dict(directed=directed, ids=ids, N=3, strnodes=strnodes), tier="quick" if not strnodes else "thorough", timeout=1500,
+                tags=["three_interactions"], twins=1,
+                bounds="EVERY real %s on 3 %s nodes over snapshot ids %s (one presence bit per pair and id, built through the public "
+                       "API), every source, every target (and none), every window with bounds on snapshot ids, every min_t" %
+                       ("DynDiGraph" if directed else "DynGraph", "string" if strnodes else "int", ids),
+                what="on the real class: every returned path is genuine (C12), the result equals the brute-force enumeration when u is "
+                     "present at start and is empty otherwise (C13), all_time_respecting_paths equals the per-source union")
+
+h_c12._register_eager()
